@@ -150,6 +150,8 @@ Definition pop : parser op :=
   match c with
   | 80 => (args <~ plist pstr ;; pret (OpParse args))                (* P *)
   | 73 => (t <~ pstr ;; d <~ pbool ;; pret (OpIni t d))              (* I *)
+  | 67 => (args <~ plist pstr ;; pret (OpComplete args))             (* C *)
+  | 78 => pret OpInspect                                             (* N *)
   | 72 => pret OpHelp                                                (* H *)
   | 77 => pret OpMan                                                 (* M *)
   | _ => (n <~ pN ;; pret (OpWriteIni n))                            (* W *)
